@@ -117,6 +117,54 @@ theorem refresh_chain (c : Cfg) (fuel : Nat) (links : List Oidc.World.Link) (v :
       (∃ rtUsed, p.2.calls = [Call.refresh rtUsed]) :=
   Oidc.World.refresh_chain c fuel links v hg
 
+/-! non-vacuity of the chain theorem: a concrete session (logged in at 0, ID token expiring at 120, grace 60) refreshed at 100 by
+    a provider that returns a new token and no new refresh token satisfies every assumption of a one-link chain -/
+section NonVacuity
+open Oidc.World
+def nvC : Cfg where
+  excluded := ["/pub".toList]
+  callback := "/cb".toList
+  logout := "/cb/logout".toList
+  grace := 60
+  maxAge := 86400
+  pkce := true
+  allowDomains := []
+  allowRoles := []
+  templates := []
+  endSession := []
+  postLogout := "/".toList
+  maxIncoming := 1024
+  maxSz := 2000
+def oldTok : TokInfo := { parses := true, verdict := fun _ => .accept, exp := 120, email := some "u@x.io".toList, nonce := none, groups := .absent, roles := .absent }
+def newTok : TokInfo := { parses := true, verdict := fun _ => .accept, exp := 9000, email := some "u@x.io".toList, nonce := none, groups := .absent, roles := .absent }
+def nvE (now : Int) : Env where
+  now := now
+  tok := fun t => if t = "new".toList then newTok else oldTok
+  verifyTok := fun _ => true
+  exchange := fun _ _ _ => .failed
+  refresh := fun _ => .ok "new".toList []
+  rnd := fun _ => []
+  s256 := id
+  exec := fun _ _ => none
+  compress := fun t => 'z' :: t
+  decompress := List.tail
+def nvR : Req := { method := "GET".toList, path := "/x".toList, rawURI := "/x".toList, qError := [], qErrDesc := [], qState := [], qCode := [], json := false, preflight := false, base := "http://a".toList, hdrs := [] }
+def nvV0 : View := { main := [], whole := fun _ => [], chunks := fun _ => [] }
+def nvV : View := loggedInView nvC (nvE 0) nvV0 "old".toList "rt".toList "u@x.io".toList
+def nvL : Link := { e := nvE 100, r := nvR, idRaw := "new".toList, rt' := [], em := "u@x.io".toList }
+
+theorem nv_reads : getSession nvC.maxAge (saveApply nvV) nvL.e.now 5 = nvV := by
+  rw [getSession_saved _ _ _ _ (by intro k; cases k <;> decide +kernel)]
+  unfold ageCheck
+  have h : pint nvV.main "created_at" = some 0 := by decide +kernel
+  rw [h]
+  rfl
+
+example : GoodChain nvC 5 nvV [nvL] := by
+  refine ⟨⟨nv_reads, ?_, ?_, ?_, ?_, rfl, ?_, ?_, ?_, ?_, ?_, ?_, ?_, ?_⟩, trivial⟩ <;> decide +kernel
+
+end NonVacuity
+
 /-! obligations against the regenerated shapes: the functions these theorems rest on still have the steps, guards, status
     codes and literals the model was written against (`Oidc/Shapes.lean`) -/
 theorem shape_ServeHTTP_ok : Oidc.Shapes.Shape_ServeHTTP := by unfold Oidc.Shapes.Shape_ServeHTTP; rfl
